@@ -173,7 +173,11 @@ func runC14(w *fw.Worker) {
 			if isFile {
 				return c14SafeValue(lf, c.Next())
 			}
-			return lf.Gen(r, c.Next())
+			v := lf.Gen(r, c.Next())
+			if fam == "pflag" && lf.Name == "[]string" {
+				v = reflect.ValueOf(pflagCSVNorm(v.Interface().([]string)))
+			}
+			return v
 		}
 		var supplies []supply
 		var bothFields []string
